@@ -4,6 +4,7 @@ use crate::model::ops::{MOp, ALL, TABLE};
 use proptest::prelude::*;
 
 pub mod programs;
+pub mod cases;
 
 /// Boundary words B (DESIGN §4.1).
 pub const BOUNDARY: &[i64] = &[
